@@ -304,3 +304,51 @@ func isBuiltinCall(in ssa.Instruction, name string) (*ssa.Call, bool) {
 	}
 	return call, true
 }
+
+// seqFromEdges is seqOnAllPaths starting from the given edges instead of the function entry.
+func seqFromEdges(fn *ssa.Function, start []an.Edge, consts map[ssa.Value]*ssa.Const, sink func(ssa.Instruction, *an.PathState) bool, steps []step) (ok bool, missing string, w []string) {
+	for i, s := range steps {
+		q := &an.PathQ{Fn: fn, Consts: consts, Sink: sink,
+			Cut: func(in ssa.Instruction, _ *an.PathState) bool { return s.is(in) }}
+		if i == 0 {
+			q.StartEdges = start
+			if len(start) == 0 {
+				return false, "start edge (not found)", nil
+			}
+		} else {
+			prev := steps[i-1]
+			an.Instrs(fn, func(in ssa.Instruction) {
+				if prev.is(in) {
+					q.StartAfter = append(q.StartAfter, in)
+				}
+			})
+			if len(q.StartAfter) == 0 {
+				return false, prev.name + " (not present)", nil
+			}
+		}
+		if w, found := q.Find(); found {
+			if i == 0 {
+				return false, s.name, w
+			}
+			return false, s.name + " after " + steps[i-1].name, w
+		}
+	}
+	return true, "", nil
+}
+
+// reachableUnder: some instruction satisfying pred is reachable from entry under consts.
+func reachableUnder(fn *ssa.Function, consts map[ssa.Value]*ssa.Const, pred func(ssa.Instruction) bool) ([]string, bool) {
+	q := &an.PathQ{Fn: fn, StartEntry: true, Consts: consts, Sink: func(in ssa.Instruction, _ *an.PathState) bool { return pred(in) }}
+	return q.Find()
+}
+
+func isStdCall(in ssa.Instruction, pkg, name string) bool {
+	ci, ok := in.(ssa.CallInstruction)
+	if !ok {
+		return false
+	}
+	if _, isGo := in.(*ssa.Go); isGo {
+		return false
+	}
+	return an.StdCallee(ci, pkg, name)
+}
